@@ -163,6 +163,16 @@ def run_case(args):
             return run_history(kind.split(":")[1], rng, res)
         else:
             params = gen_params(rng)
+            if kind == "manynames":
+                # more than ten names per list (`srv_10` sorts before `srv_2`, sets of eleven strings iterate in an order
+                # that depends on the hash seed), busy hosts, tight firewalls: whatever depends on the order of names or of
+                # a set shows in the comparison across hash seeds (C14) and against the model (C15)
+                params.update(num_services=rng.choice([11, 12, 14]), num_processes=rng.choice([2, 11]),
+                              num_hosts=rng.choice([16, 23, 38]), restrictiveness=rng.randint(1, 3), uniform=False,
+                              num_exploits=None, num_privescs=None, alpha_V=rng.choice([0.5, 5.0]), lambda_V=3.0)
+                if isinstance(params["exploit_probs"], list):
+                    params["exploit_probs"] = None
+                params.pop("address_space_bounds", None)
             if rng.random() < 0.4:
                 # the same generator object first serves one or two other parameter sets (half of them larger name
                 # lists under the same `uniform` flag: whatever it keeps between calls is then visibly stale)
@@ -345,13 +355,13 @@ BENCH = ["tiny-gen", "tiny-gen-rgoal", "small-gen", "small-gen-rgoal", "medium-g
          "pocp-1-gen", "pocp-2-gen"]
 SHIPPED = ["tiny", "tiny-hard", "tiny-small", "small", "small-honeypot", "small-linear", "medium",
            "medium-single-site", "medium-multi-site"]
-BUDGET = {"quick": dict(n_random=40, bench_rep=1), "thorough": dict(n_random=600, bench_rep=6)}
+BUDGET = {"quick": dict(n_random=40, n_big=8, bench_rep=1), "thorough": dict(n_random=600, n_big=80, bench_rep=6)}
 
 
 def run(tier, seed):
     import runner
     b, tier = runner.budget(BUDGET, tier)
-    kinds = ["random"] * b["n_random"] + [f"bench:{n}" for n in BENCH] * b["bench_rep"] \
+    kinds = ["random"] * b["n_random"] + ["manynames"] * b["n_big"] + [f"bench:{n}" for n in BENCH] * b["bench_rep"] \
         + [f"shipped:{n}" for n in SHIPPED] + [f"history:{n}" for n in (BENCH[:3] if tier == "quick" else BENCH)]
     tasks = [(seed, i, k, tier) for i, k in enumerate(kinds)]
     rs = runner.pmap(run_case, tasks)
